@@ -292,6 +292,15 @@ func genCase(rt *rapid.T) Case {
 			return v
 		}
 		c.A, c.B, c.C = w("a"), w("b"), w("c")
+		// pairs at and near the largest distance: b = complement of a, possibly with a few bits flipped back
+		if rapid.IntRange(0, 3).Draw(rt, "complement") == 0 {
+			for i := range c.B {
+				c.B[i] = ^c.A[i]
+			}
+			for i, n := 0, rapid.IntRange(0, 3).Draw(rt, "flipback"); i < n; i++ {
+				c.B[rapid.IntRange(0, 3).Draw(rt, "fw")] ^= 1 << uint(rapid.IntRange(0, 63).Draw(rt, "fb"))
+			}
+		}
 		rec.Case(true, ev.HashS("metric", fmt.Sprint(c.A, c.B, c.C)), "op:metric")
 		rec.Sample("metric", c)
 		return c
